@@ -381,7 +381,43 @@ def op_result_in_result(p, r):
     return op.name, m.name, "Result as the Ok arm of a Result"
 
 
-OPERATORS = [op_missing_bound_beside_static, op_ordering_field, op_unit_field, op_write_field, op_option_result_return, op_result_in_result, op_owned_opaque_param, op_opaque_by_value_param, op_opaque_by_value_return, op_opaque_by_value_field, op_opaque_by_value_self,
+def trait_fault(p, r, bad_arg=None, bad_ret=None, what=""):
+    """A trait whose one method breaks a rule, consumed through `impl Trait` (only where the backend supports traits at all:
+    elsewhere the consuming method is what lowering rejects). The error must name the trait and its method."""
+    import profiles
+    if not profiles.support(getattr(p, "backend", "c")).get("traits"):
+        return None
+    op = first(p, "opaque", lambda t: not t.lifetimes)
+    if not op:
+        return None
+    mod = [m for m in p.modules if op in m.items][0]
+    mod.extra_src += "    pub trait VfBadTr {\n        fn good(&self, x: u8) -> u8;\n        fn bad(&self%s)%s;\n    }\n" % (
+        (", a: " + bad_arg) if bad_arg else "", (" -> " + bad_ret) if bad_ret else "")
+    add_method(op, "use_bad_tr", r.choice([("ref", None), None]), [("t", raw("impl VfBadTr"))], ("unit",))
+    return "VfBadTr", "bad", what
+
+
+def op_trait_ref_struct_arg(p, r):
+    st = first(p, "struct", lambda t: not t.lifetimes)
+    return trait_fault(p, r, bad_arg="&%s" % st.name, what="trait method taking a reference to a struct") if st else None
+
+
+def op_trait_opaque_by_value_arg(p, r):
+    # (Box<Opaque> is legal here: Rust hands the value *to* foreign code, so trait-method arguments are in output position)
+    op = first(p, "opaque", lambda t: not t.lifetimes)
+    return trait_fault(p, r, bad_arg=op.name, what="trait method taking an opaque by value") if op else None
+
+
+def op_trait_result_arg(p, r):
+    return trait_fault(p, r, bad_arg="Result<u8, u8>", what="trait method taking a Result")
+
+
+def op_trait_opaque_by_value_return(p, r):
+    op = first(p, "opaque", lambda t: not t.lifetimes)
+    return trait_fault(p, r, bad_ret=op.name, what="trait method returning an opaque by value") if op else None
+
+
+OPERATORS = [op_trait_ref_struct_arg, op_trait_opaque_by_value_arg, op_trait_result_arg, op_trait_opaque_by_value_return, op_missing_bound_beside_static, op_ordering_field, op_unit_field, op_write_field, op_option_result_return, op_result_in_result, op_owned_opaque_param, op_opaque_by_value_param, op_opaque_by_value_return, op_opaque_by_value_field, op_opaque_by_value_self,
              op_outstruct_param, op_outstruct_self, op_ref_struct_param, op_ref_struct_self, op_box_struct_return, op_ref_prim_param,
              op_result_param, op_result_nested_return, op_result_field, op_std_option_prim_field, op_std_option_enum_field,
              op_std_option_struct_field, op_diplomat_option_ref, op_option_box_param, op_option_opaque_value, op_write_not_last,
@@ -404,7 +440,8 @@ def base_program(backend, seed, i):
         kinds = [t.kind for t in prog.types()]
         if kinds.count("struct") >= 2 and "outstruct" in kinds and "enum" in kinds and "opaque" in kinds and \
                 any(not t.lifetimes for t in prog.types() if t.kind == "struct"):
-            return prog
+            break
+    prog.backend = backend
     return prog
 
 
@@ -494,7 +531,12 @@ def main(tier, seed):
         elif k == "panic":
             # rejected, but by a panic inside the parser / gate rather than by a diagnostic: not an acceptance (the property only
             # constrains the context of errors that lowering *reports*); counted, and a panic past the gate is C15's business
-            if r["det"]["file"].startswith(("core/src/ast", "core/src/hir/lowering", "core/src/hir/type_context", "core/src/hir/elision", "core/src/hir/lifetimes")):
+            if r["det"]["file"].startswith(("core/src/hir/lowering", "core/src/hir/type_context")) and "unwrap()" in r["det"]["msg"]:
+                # lowering collected its errors and then threw them away: the user gets `called Result::unwrap() on an Err value`
+                # instead of `Lowering error in <Type>::<method>: ...`, i.e. a reported rejection without its context
+                chk.violation(name, "mutant %s (%s) is rejected by a bare unwrap() panic in %s; the lowering errors and their context are lost" % (opname, r["note"], r["det"]["file"]),
+                              payload(), key={"operator": opname, "backend": b, "context": "lost in panic"})
+            elif r["det"]["file"].startswith(("core/src/ast", "core/src/hir/lowering", "core/src/hir/type_context", "core/src/hir/elision", "core/src/hir/lifetimes")):
                 counts["mutant_rejected_by_panic_in_gate"] = counts.get("mutant_rejected_by_panic_in_gate", 0) + 1
                 panics.add((opname, r["det"]["file"], r["det"]["msg"][:80]))
             else:
